@@ -123,9 +123,11 @@ def _(c):
     c.requires(*[t % {'w': 'self'} for t in WINV])
     c.ensures(
         # while unused keys remain: the key handed out was never handed out before, and will not be handed out again
-        "implies(n0 > 0, result == u0[n0 - 1] and result not in a0 and result in self.public_key_annotations)",
-        "implies(n0 > 0, len(self.unused_public_keys) == n0 - 1 and "
-        "all(self.unused_public_keys[j] == u0[j] for j in range(n0 - 1)))",
+        # (which of the unused keys is handed out is not part of the property: only that it was unused, is now recorded as
+        # handed out, and that every other unused key stays unused)
+        "implies(n0 > 0, result in u0 and result not in a0 and result in self.public_key_annotations)",
+        "implies(n0 > 0, len(self.unused_public_keys) == n0 - 1)",
+        "implies(n0 > 0, every(bytes, lambda k: implies(k != result, (k in self.unused_public_keys) == (k in u0))))",
         "implies(n0 > 0, all(self.unused_public_keys[j] != result for j in range(len(self.unused_public_keys))))",
         "every(bytes, lambda k: implies(k != result, (k in self.public_key_annotations) == (k in a0)))",
         "implies(n0 > 0, result in self.keypairs)",
@@ -141,8 +143,8 @@ def _(c):
     c.let(u0="self.unused_public_keys", a0="self.public_key_annotations", n0="len(self.unused_public_keys)")
     c.requires("public_key in self.keypairs", *[t % {'w': 'self'} for t in WINV])
     c.ensures("public_key not in self.public_key_annotations",
-              "len(self.unused_public_keys) == n0 + 1 and self.unused_public_keys[n0] == public_key",
-              "all(self.unused_public_keys[j] == u0[j] for j in range(n0))",
+              "len(self.unused_public_keys) == n0 + 1 and public_key in self.unused_public_keys",
+              "every(bytes, lambda k: implies(k != public_key, (k in self.unused_public_keys) == (k in u0)))",
               "every(bytes, lambda k: implies(k != public_key, (k in self.public_key_annotations) == (k in a0)))",
               *[t % {'w': 'self'} for t in WINV])
     # a key that is not handed out cannot be restored: KeyError, and NOTHING has changed (in particular the key was not
